@@ -3,6 +3,9 @@
 // behind every generated identifier), compared with the Coq model.
 // Part B: IDL programs x option sets through the real thriftgo binary; every written .go file
 // is parsed with go/parser and the whole output is compiled with `go build`.
+// Part C (scope.go): for a sample of the accepted runs of part B, what every written Go package
+// declares (identifiers, struct members, method parameters) next to the resolved IDL files, for
+// the model of the generator's name tables (coq/Gen/Scope.v).
 package main
 
 import (
@@ -133,7 +136,12 @@ func main() {
 	tier := flag.String("tier", "quick", "quick|thorough")
 	out := flag.String("out", ".", "output directory")
 	thriftgo := flag.String("thriftgo", "", "thriftgo binary")
+	scopeAll := flag.Bool("scope-all", false, "development: a scope case for every accepted run")
+	skipNs := flag.Bool("skip-ns", false, "development: no namespace cases, no go build")
 	flag.Parse()
+	if abs, err := filepath.Abs(*out); err == nil {
+		*out = abs
+	}
 	r := rng.New(*seed)
 	w := casefile.New(*out, "From Verif Require Import Base.Bytes Gen.Namespace Corr.C01.", 300)
 
@@ -141,6 +149,9 @@ func main() {
 	nns := 1500
 	if *tier == "thorough" {
 		nns = 20000
+	}
+	if *skipNs {
+		nns = 0
 	}
 	nsEval, nsNontrivial := 0, 0
 	var samples []interface{}
@@ -186,6 +197,8 @@ func main() {
 	}
 	var cases []*BuildCase
 	keys := []string{}
+	sw := newScopeWriter(*out, 180<<10)
+	scopeRuns := 0
 	for pi, p := range progs {
 		src := filepath.Join(work, fmt.Sprintf("src%d", pi))
 		for n, t := range p.Files {
@@ -211,6 +224,19 @@ func main() {
 				os.RemoveAll(outdir)
 			} else {
 				bc.ParseBad, bc.NFiles = gobuild.ParseAll(outdir)
+				if len(bc.ParseBad) == 0 && (*scopeAll || scopeSelected(*tier, p, pi, oi)) {
+					sc, terms, serr := scopeCasesFor(p, src, be, outdir)
+					if serr != nil {
+						fmt.Fprintln(os.Stderr, "scope case:", p.Name, be, serr)
+						os.Exit(2)
+					}
+					for k := range sc {
+						sw.Add(terms[k], sc[k])
+					}
+					if len(sc) > 0 {
+						scopeRuns++
+					}
+				}
 				if len(bc.ParseBad) > 0 {
 					// keep unparsable code out of the joint build
 					os.RemoveAll(outdir)
@@ -220,7 +246,10 @@ func main() {
 			keys = append(keys, key)
 		}
 	}
-	ok, per, raw := gobuild.Build(gen, false, 20*time.Minute)
+	ok, per, raw := true, map[string][]string{}, ""
+	if !*skipNs {
+		ok, per, raw = gobuild.Build(gen, false, 20*time.Minute)
+	}
 	if !ok && len(per) == 0 {
 		fmt.Fprintln(os.Stderr, "go build failed without attributable errors:\n"+raw)
 		os.Exit(2)
@@ -253,11 +282,13 @@ func main() {
 		samples = append(samples, v)
 	}
 	w.Close()
+	sw.Close()
 	casefile.WriteMeta(*out, map[string]interface{}{
-		"shards": w.Shards, "total": w.Total(),
+		"shards": append(w.Shards, sw.Shards...), "total": w.Total() + sw.Total,
 		"stats": map[string]interface{}{
-			"evaluations": nsEval + bEval, "distinct_nontrivial": nsNontrivial + bNontrivial,
-			"rule":    "namespace case: random Add/Reserve/Get/ID sequence on the real pkg/namespace, non-trivial when some Add had to rename; build case: (program, option set) through thriftgo + go/parser + go build, non-trivial when thriftgo accepted it and wrote Go files",
+			"evaluations": nsEval + bEval + sw.Total, "distinct_nontrivial": nsNontrivial + bNontrivial + sw.Total,
+			"scope_cases": sw.Total, "scope_runs": scopeRuns, "scope_tables_compared": sw.Tables,
+			"rule":    "namespace case: random Add/Reserve/Get/ID sequence on the real pkg/namespace, non-trivial when some Add had to rename; build case: (program, option set) through thriftgo + go/parser + go build, non-trivial when thriftgo accepted it and wrote Go files; scope case: one Go package directory of an accepted run, its declared identifiers / members / parameter names (go/parser) against the name tables the model computes from the resolved IDL files, always non-trivial",
 			"samples": samples, "namespace_cases": nsEval, "namespace_cases_with_rename": renamed,
 			"build_cases": bEval, "build_cases_accepted": bNontrivial, "rejected_by_impl": rejected, "option_sets": optHist, "programs": len(progs),
 		},
